@@ -3,7 +3,7 @@
 # Applies a seeded change to /repo, runs the given checks, prints their verdicts, and ALWAYS reverts /repo.
 set -u
 PATCH="$1"; TIER="$2"; shift 2
-cd /verif
+cd "${VERIF_HOME:-/verif}"
 if ! git -C /repo diff --quiet; then echo "/repo is not clean"; exit 2; fi
 git -C /repo apply "$PATCH" || { echo "patch does not apply"; exit 2; }
 trap 'git -C /repo checkout -- . ; git -C /repo clean -fdq -- pkg internal cmd >/dev/null 2>&1' EXIT
